@@ -274,7 +274,10 @@ func (s *Sim) spawn(name string, host bool, f func()) *Task {
 	t := &Task{ID: len(s.tasks), Name: name, Host: host, resume: make(chan struct{}), state: StReady, site: "start", stepLimit: s.cfg.TaskStepBudget, boundName: "sim-task-budget", Parent: -1}
 	if s.cur != nil {
 		t.Parent = s.cur.ID
-		if s.cur.boundName != "sim-task-budget" { // an armed property bound applies to children too
+		if s.cur.boundName == "drain" { // spawned while the scheduler drains: the drain allowance, from now
+			t.stepLimit = s.cfg.DrainSteps
+			t.boundName = "drain"
+		} else if s.cur.boundName != "sim-task-budget" { // an armed property bound applies to children too
 			t.stepLimit = s.armedN
 			t.boundName = s.cur.boundName
 		}
